@@ -308,8 +308,8 @@ class BaseEvent(BaseModel, Generic[T_EventResultType]):
                         # Process any queued events on all buses
                         # Create a list copy to avoid "Set changed size during iteration" error
                         for bus in list(EventBus.all_instances):
-                            if not bus or not bus.event_queue:
-                                continue
+                            if not bus or not bus.event_queue or not bus._is_running:  # pyright: ignore[reportPrivateUsage]
+                                continue  # never run handlers of a bus that has not been started or has been stopped
 
                             # Process the awaited event (or one of its descendants) if it is queued on this bus.
                             # It jumps the queue: unrelated events that were queued earlier keep waiting for the run loop
